@@ -475,7 +475,8 @@ func (m *Machine) apply(t trans) []*G {
 		return o.ch, o.val
 	}
 	if t.partner != nil { // rendezvous: g sends, partner receives
-		_, v := sendVal(op, t.gcase)
+		sc, v := sendVal(op, t.gcase)
+		m.hbChanAccess(g, sc, false)
 		po := t.partner.parked
 		po.rval, po.rok, po.ridx = v, true, t.pcase
 		op.ridx = t.gcase
@@ -514,6 +515,7 @@ func (m *Machine) apply(t trans) []*G {
 		m.hbAcquire(g, op.mu)
 	case opClose:
 		if m.hb != nil && op.ch != nil {
+			m.hbChanAccess(g, op.ch, true)
 			op.ch.closeVC = vcCopy(g.vc)
 			m.hbTick(g)
 		}
@@ -532,6 +534,7 @@ func (m *Machine) apply(t trans) []*G {
 		isSend := op.kind == opSend || op.kind == opSelect && op.cases[ci].send
 		if isSend {
 			c, v := sendVal(op, ci)
+			m.hbChanAccess(g, c, false)
 			if c.closed {
 				m.pendingPanic = "send on closed channel"
 			} else {
